@@ -393,6 +393,14 @@ def chain_case(run: Run, model, df, kind, algo, n_iter, nb=None, frac_=None, see
         run.fail(f"mcmc:{kind}:{type(err).__name__ if err else 'no-run'}", f"{algo} on a {kind} model did not start: {type(err).__name__}: {err}", inp)
         return None
     nb_eff = int(rec.algo.algo_parameters["n_burn_in_iter"])
+    # the burn-in in force DURING the run: the explicit count when one is given (documented priority over the fraction), else the
+    # configured fraction of the iterations
+    nb_doc = int(nb) if nb is not None else (int(float(frac_) * n_iter) if isinstance(frac_, (int, float)) else None)
+    if nb_doc is not None and nb_eff != nb_doc:
+        run.fail("mcmc:burn-in-in-force-is-not-the-configured-one",
+                 f"{algo}: the run used n_burn_in_iter={nb_eff}, the configuration says {nb_doc} "
+                 f"({'explicit count' if nb is not None else 'fraction of the iterations'})", inp, expected=nb_doc, observed=nb_eff)
+        nb_eff = nb_doc        # the kept draws below are judged against the documented count
     names = rec.names
     out = dict(inp=inp, nb_eff=nb_eff, names=names, rec=rec, err=err, ip=ip, dataset=dataset)
     iters = sorted(rec.snaps)
